@@ -2,29 +2,28 @@ import SunriseVerif.Lemmas.DA08Block
 /-!
 C01 (DA part) — the x/da end-blocker never panics in a reachable state, so a block never halts because of x/da.
 
-Model: `Model/DA.lean`. The end-blocker model has three panic sites (all Go integer divisions by zero):
+Model: `Model/DA.lean`. The end-blocker model has two panic sites (both Go integer divisions by zero):
 * `tallyOne`: `QuoInt64(len(shards))` for an item with `shards = 0` that has proofs;
-* `tallyOne`: the reward division `pubColl / len(invalidities)` of a rejected item without invalidities;
 * `endBlock`: `height % slash_epoch` with `slash_epoch = 0`.
+(A third one — the reward division `pubColl / len(invalidities)` of a rejected item without recorded invalidities — is
+gone with the fix of `abci.go`: nothing is divided when there is no challenger, the collateral stays in the module
+account.)
 
-`NoHalt` is the inductive invariant that rules all three out: valid params, every stored item has at least one shard,
-and every item in status `challenging` still has at least one recorded invalidity (guaranteed on entry by the guard
-`0 < n` of `toChallengingOne`, and invalidities of a uri are only deleted when every item with this uri leaves
-`challenging`). It is independent of the escrow invariant `Inv` of C08.
+`NoHalt` is the inductive invariant that rules both out: valid params and every stored item has at least one shard.
+It says NOTHING about invalidity records, so it also holds in a state produced by a genesis import (which keeps the
+items, `challenging` ones included, but drops the invalidities): `endBlock_ok`, `block_ok`, `run_never_halts_from`
+cover every history that starts from such a state. It is independent of the escrow invariant `Inv` of C08.
 -/
 set_option linter.unusedSimpArgs false
 set_option linter.unusedVariables false
 namespace Sunrise.C01DA
 open Sunrise Sunrise.Bank Sunrise.DA
 
-/-- the no-halt invariant of x/da -/
+/-- the no-halt invariant of x/da. It does not mention the invalidity records: a `challenging` item without a recorded
+    challenger (the state a genesis import produces) satisfies it, and is tallied without a panic. -/
 structure NoHalt (s : St) : Prop where
   params : s.params.valid = true
   shards : ∀ it ∈ s.items, 0 < it.shards
-  challenged : ∀ it ∈ s.items, it.status = .ch → invsOf s it.uri ≠ []
-
-/-- no item with uri `u` is in status `challenging` -/
-def Term (s : St) (u : String) : Prop := ∀ it ∈ s.items, it.uri = u → it.status ≠ .ch
 
 /-! ### generic preservation lemmas -/
 theorem valid_epoch {p : Params} (h : p.valid = true) : 0 < p.epoch := by
@@ -32,72 +31,22 @@ theorem valid_epoch {p : Params} (h : p.valid = true) : 0 < p.epoch := by
   simp only [Bool.and_eq_true, decide_eq_true_eq] at h
   exact h.1.1.1.1.1.1.1.1.1.1.2
 
-/-- `NoHalt` only looks at params, items and invalidities; it is monotone in "fewer items, more invalidities" -/
-theorem NoHalt.mono {s s' : St} (h : NoHalt s) (hp : s'.params = s.params) (hi : ∀ x ∈ s'.items, x ∈ s.items)
-    (hv : ∀ w, invsOf s w ≠ [] → invsOf s' w ≠ []) : NoHalt s' := by
-  refine ⟨by rw [hp]; exact h.params, fun x hx => h.shards x (hi x hx), ?_⟩
-  intro it hit hs
-  exact hv _ (h.challenged it (hi it hit) hs)
+/-- `NoHalt` only looks at params and items; it is monotone in "fewer items" -/
+theorem NoHalt.mono {s s' : St} (h : NoHalt s) (hp : s'.params = s.params) (hi : ∀ x ∈ s'.items, x ∈ s.items) :
+    NoHalt s' :=
+  ⟨by rw [hp]; exact h.params, fun x hx => h.shards x (hi x hx)⟩
 
-theorem NoHalt.congr {s s' : St} (h : NoHalt s) (hp : s'.params = s.params) (hi : s'.items = s.items)
-    (hv : s'.invs = s.invs) : NoHalt s' := by
-  apply h.mono hp (by rw [hi]; exact fun x hx => hx)
-  intro w hw
-  unfold invsOf at *
-  rw [hv]; exact hw
+theorem NoHalt.congr {s s' : St} (h : NoHalt s) (hp : s'.params = s.params) (hi : s'.items = s.items) : NoHalt s' :=
+  h.mono hp (by rw [hi]; exact fun x hx => hx)
 
-theorem filter_uri_keep (invs : List Inval) (p : Inval → Bool) (w : String)
-    (h : ∀ x ∈ invs, x.uri = w → p x = true) :
-    (invs.filter p).filter (fun x => x.uri == w) = invs.filter (fun x => x.uri == w) := by
-  rw [List.filter_filter]
-  apply List.filter_congr
-  intro x hx
-  by_cases hv : x.uri = w
-  · simp [hv, h x hx hv]
-  · simp [hv]
-
-/-- deleting invalidities of a uri none of whose items is `challenging` -/
-theorem NoHalt.dropRecords {s s' : St} {u : String} (h : NoHalt s) (ht : Term s u) (p : Inval → Bool)
-    (hp : ∀ x ∈ s.invs, x.uri ≠ u → p x = true)
-    (hpar : s'.params = s.params) (hi : s'.items = s.items) (hv : s'.invs = s.invs.filter p) : NoHalt s' := by
-  refine ⟨by rw [hpar]; exact h.params, by rw [hi]; exact h.shards, ?_⟩
-  intro it hit hs
-  rw [hi] at hit
-  have hne : it.uri ≠ u := fun e => ht it hit e hs
-  have := h.challenged it hit hs
-  unfold invsOf at *
-  rw [hv, filter_uri_keep]
-  · exact this
-  · intro x hx hxu; exact hp x hx (by rw [hxu]; exact hne)
-
-/-- re-tagging a stored item (status, timestamp); entering `challenging` needs a recorded invalidity -/
-theorem NoHalt.retag {s : St} (h : NoHalt s) {it : Item} (hmem : it ∈ s.items) (st : Status) (t : Int)
-    (hst : st = .ch → invsOf s it.uri ≠ []) :
+/-- re-tagging a stored item (status, timestamp) -/
+theorem NoHalt.retag {s : St} (h : NoHalt s) {it : Item} (hmem : it ∈ s.items) (st : Status) (t : Int) :
     NoHalt { s with items := setItem s.items { it with status := st, ts := t } } := by
-  refine ⟨h.params, ?_, ?_⟩
-  · intro x hx
-    rcases mem_setItem hx with rfl | ⟨hx', _⟩
-    · exact h.shards it hmem
-    · exact h.shards x hx'
-  · intro x hx hs
-    rcases mem_setItem hx with rfl | ⟨hx', _⟩
-    · exact hst hs
-    · exact h.challenged x hx' hs
-
-theorem term_retag {s : St} {it : Item} (st : Status) (t : Int) (hst : st ≠ .ch) :
-    Term { s with items := setItem s.items { it with status := st, ts := t } } it.uri := by
-  intro x hx hu hs
-  rcases mem_setItem hx with rfl | ⟨_, hne⟩
-  · exact hst hs
-  · exact hne hu
-
-theorem invsOf_insert_ne_nil (lt : Inval → Inval → Bool) (r : Inval) (invs : List Inval) (w : String)
-    (h : invs.filter (fun x => x.uri == w) ≠ []) : (insertBy lt r invs).filter (fun x => x.uri == w) ≠ [] := by
-  intro hnil
-  apply h
-  rw [List.filter_eq_nil_iff] at hnil ⊢
+  refine ⟨h.params, ?_⟩
   intro x hx
-  exact hnil x ((mem_insertBy8 _ _ _ _).2 (Or.inr hx))
+  rcases mem_setItem hx with rfl | ⟨hx', _⟩
+  · exact h.shards it hmem
+  · exact h.shards x hx'
 
 /-! ### messages -/
 theorem nohalt_publish {s s' : St} {a : Addr} {u : String} {n p : Nat} (hi : NoHalt s)
@@ -113,15 +62,11 @@ theorem nohalt_publish {s s' : St} {a : Addr} {u : String} {n p : Nat} (hi : NoH
   have common : ∀ b : Bank, NoHalt { s with
       items := insertBy itemLt ⟨u, .cp, s.now, a, n, p, s.params.pub, s.params.inv⟩ s.items, bank := b } := by
     intro b
-    refine ⟨hi.params, ?_, ?_⟩
-    · intro y hy
-      rcases (mem_insertBy8 _ _ _ _).1 hy with rfl | hy
-      · exact hn
-      · exact hi.shards y hy
-    · intro y hy hs
-      rcases (mem_insertBy8 _ _ _ _).1 hy with rfl | hy
-      · cases hs
-      · exact hi.challenged y hy hs
+    refine ⟨hi.params, ?_⟩
+    intro y hy
+    rcases (mem_insertBy8 _ _ _ _).1 hy with rfl | hy
+    · exact hn
+    · exact hi.shards y hy
   split at h
   · obtain ⟨b, _, hb⟩ := bind_ok h
     simp only [Res.ok.injEq] at hb
@@ -147,17 +92,17 @@ theorem nohalt_submitInvalidity {s s' : St} {a : Addr} {u : String} {ix : List I
   · obtain ⟨b, _, hb⟩ := bind_ok h
     simp only [Res.ok.injEq] at hb
     subst hb
-    exact hi.mono rfl (fun x hx => hx) (fun w hw => invsOf_insert_ne_nil _ _ _ _ hw)
+    exact hi.congr rfl rfl
   · simp only [Res.ok.injEq] at h
     subst h
-    exact hi.mono rfl (fun x hx => hx) (fun w hw => invsOf_insert_ne_nil _ _ _ _ hw)
+    exact hi.congr rfl rfl
 
 /-! ### end-block phases -/
 theorem nohalt_pruneOne {s : St} (st : Status) (hi : NoHalt s) (u : String) : NoHalt (pruneOne st s u) := by
   unfold pruneOne
   split
   · split
-    · exact hi.mono rfl (fun x hx => (List.mem_filter.1 hx).1) (fun w hw => hw)
+    · exact hi.mono rfl (fun x hx => (List.mem_filter.1 hx).1)
     · exact hi
   · exact hi
 
@@ -169,56 +114,36 @@ theorem nohalt_toChallengingOne {s : St} (hi : NoHalt s) (u : String) : NoHalt (
     split
     · simp only []
       split
-      · rename_i hg
-        apply hi.retag hmem
-        intro _ hnil
-        rw [huri] at hnil
-        rw [hnil] at hg
-        simp [distinctIndices] at hg
+      · exact hi.retag hmem _ _
       · exact hi
     · exact hi
   · exact hi
 
-theorem refund_fold_nohalt (coll : Coins) (u : String) :
-    ∀ (L : List Inval) (s : St), (∀ x ∈ L, x.uri = u) → NoHalt s → Term s u →
-      NoHalt (L.foldl (refundChallenger coll) s) := by
+theorem refund_fold_nohalt (coll : Coins) :
+    ∀ (L : List Inval) (s : St), NoHalt s → NoHalt (L.foldl (refundChallenger coll) s) := by
   intro L
   induction L with
-  | nil => intro s _ h _; exact h
+  | nil => intro s h; exact h
   | cons y L ih =>
-    intro s hL h ht
+    intro s h
     simp only [List.foldl_cons]
-    have hyu := hL y (List.mem_cons_self ..)
-    apply ih _ (fun x hx => hL x (List.mem_cons_of_mem _ hx))
-    · unfold refundChallenger
-      split
-      · refine h.dropRecords ht _ ?_ rfl rfl rfl
-        intro x _ hne
-        have : x.uri ≠ y.uri := by rw [hyu]; exact hne
-        simp [this]
-      · exact h
-    · unfold refundChallenger
-      split
-      · exact ht
-      · exact ht
+    apply ih
+    unfold refundChallenger
+    split
+    · exact h.congr rfl rfl
+    · exact h
 
 theorem nohalt_toVerifiedOne {s : St} (hi : NoHalt s) (u : String) : NoHalt (toVerifiedOne s u) := by
   unfold toVerifiedOne
   split
   · rename_i it hfind
     obtain ⟨hmem, huri⟩ := findItem_some8 hfind
-    subst huri
     split
     · simp only []
-      have h1 := hi.retag hmem .ver s.now (by intro e; cases e)
-      have t1 := term_retag (s := s) (it := it) .ver s.now (by intro e; cases e)
+      have h1 := hi.retag hmem .ver s.now
       split
       · apply refund_fold_nohalt
-        · intro x hx
-          unfold invsOf at hx
-          simpa using (List.mem_filter.1 hx).2
-        · exact h1.mono rfl (fun x hx => hx) (fun w hw => hw)
-        · exact t1
+        exact h1.congr rfl rfl
       · exact h1
     · exact hi
   · exact hi
@@ -266,15 +191,14 @@ theorem settle_fields (coll : Coins) (safe : List Int) : ∀ (L : List Inval) (a
       · exact ⟨rfl, rfl, rfl⟩
     exact ⟨a.trans h1.1, b.trans h1.2.1, c.trans h1.2.2⟩
 
-/-- the state after resolving item `it`: every item with its uri leaves `challenging`, its invalidities are deleted -/
+/-- the state after resolving item `it`: the item is re-tagged, params are untouched -/
 theorem NoHalt.resolve {s s' : St} (h : NoHalt s) {it : Item} (hmem : it ∈ s.items) (st : Status) (t : Int)
-    (hst : st ≠ .ch) (hp : s'.params = s.params)
-    (hi : s'.items = setItem s.items { it with status := st, ts := t })
-    (hv : s'.invs = s.invs.filter (fun x => !(x.uri == it.uri))) : NoHalt s' := by
-  have h1 := h.retag hmem st t (fun e => absurd e hst)
-  have t1 := term_retag (s := s) (it := it) st t hst
-  exact h1.dropRecords t1 (fun x => !(x.uri == it.uri)) (by intro x _ hne; simp [hne]) hp hi hv
+    (hp : s'.params = s.params)
+    (hi : s'.items = setItem s.items { it with status := st, ts := t }) : NoHalt s' :=
+  (h.retag hmem st t).congr hp hi
 
+/-- the tally of one item returns (no panic, no error) and preserves `NoHalt` — whether or not the item has a recorded
+    challenger -/
 theorem tallyOne_ok {env : Env} {s : St} (hi : NoHalt s) (u : String) :
     ∃ s', tallyOne env s u = .ok s' ∧ NoHalt s' := by
   unfold tallyOne
@@ -286,34 +210,24 @@ theorem tallyOne_ok {env : Env} {s : St} (hi : NoHalt s) (u : String) :
   split
   · exact ⟨s, rfl, hi⟩
   rename_i hs
-  have hch : it.status = .ch := by
-    cases hst : it.status <;> simp_all
   have hsh := hi.shards it hmem
-  have hne := hi.challenged it hmem hch
   simp only []
   rw [if_neg (fun h => by have := h.1; omega)]
   split
   · -- rejected
-    rw [if_neg (fun h => hne (List.eq_nil_of_length_eq_zero (by have := h.1; omega)))]
     refine ⟨_, rfl, ?_⟩
-    obtain ⟨f1, f2, f3⟩ := pay_fields (it.invColl ++ rewardShare it.pubColl ((invsOf s it.uri).length : Int))
+    obtain ⟨f1, f2, f3⟩ := pay_fields
+      (it.invColl ++ rewardShare (if ((invsOf s it.uri).length : Int) = 0 then [] else it.pubColl)
+        ((invsOf s it.uri).length : Int))
       (invsOf s it.uri) { s with items := setItem s.items { it with status := .rej, ts := s.now } }
-    refine hi.resolve hmem .rej s.now (by decide) f1 f2 ?_
-    show List.filter _ _ = _
-    rw [f3]
+    exact hi.resolve hmem .rej s.now f1 f2
   · -- verified after challenge
     obtain ⟨f1, f2, f3⟩ := settle_fields it.invColl
       (tallyOutcome s.params.rf it (proofsOf s it.uri) env.active (env.assign it.uri)).safe (invsOf s it.uri)
       ({ s with items := setItem s.items { it with status := .ver, ts := s.now } }, it.pubColl)
     split
-    · refine ⟨_, rfl, ?_⟩
-      refine hi.resolve hmem .ver s.now (by decide) f1 f2 ?_
-      show List.filter _ _ = _
-      rw [f3]
-    · refine ⟨_, rfl, ?_⟩
-      refine hi.resolve hmem .ver s.now (by decide) f1 f2 ?_
-      show List.filter _ _ = _
-      rw [f3]
+    · exact ⟨_, rfl, hi.resolve hmem .ver s.now f1 f2⟩
+    · exact ⟨_, rfl, hi.resolve hmem .ver s.now f1 f2⟩
 
 theorem tallyList_ok {env : Env} : ∀ (l : List String) {s : St}, NoHalt s →
     ∃ s', tallyList env l s = .ok s' ∧ NoHalt s' := by
@@ -335,11 +249,11 @@ theorem tally_ok {env : Env} {s : St} (hi : NoHalt s) : ∃ s', tally env s = .o
 /-! ### the whole end-blocker, a block, every operation -/
 theorem nohalt_slashEpoch {env : Env} {s : St} (hi : NoHalt s) : NoHalt (slashEpoch env s).1 := by
   unfold slashEpoch
-  exact hi.congr rfl rfl rfl
+  exact hi.congr rfl rfl
 
 /-- `NoHalt` does not depend on the block time and height -/
 theorem nohalt_time {s : St} (hi : NoHalt s) (t h : Int) : NoHalt { s with now := t, height := h } :=
-  hi.congr rfl rfl rfl
+  hi.congr rfl rfl
 
 theorem nohalt_prune {s : St} (hi : NoHalt s) (st : Status) (period : Int) : NoHalt (prune s st period) :=
   nohalt_foldl (fun s u h => nohalt_pruneOne st h u) _ _ hi
@@ -369,9 +283,8 @@ theorem block_ok {env : Env} {s : St} (hi : NoHalt s) (dt : Int) : ∃ r, block 
   exact endBlock_ok (nohalt_time hi _ _)
 
 theorem nohalt_init {s : St} (h : Init s) : NoHalt s := by
-  refine ⟨h.params, ?_, ?_⟩
-  · rw [h.items]; intro x hx; cases hx
-  · rw [h.items]; intro x hx; cases hx
+  refine ⟨h.params, ?_⟩
+  rw [h.items]; intro x hx; cases hx
 
 /-- `NoHalt` is inductive: every operation preserves it (no well-formedness of the signer is needed) -/
 theorem nohalt_step {s : St} (op : Op) (hi : NoHalt s) : NoHalt (step s op).1 := by
@@ -394,26 +307,26 @@ theorem nohalt_step {s : St} (op : Op) (hi : NoHalt s) : NoHalt (step s op).1 :=
     | ok s' =>
       simp only [applyMsg]
       obtain ⟨_, a2, a3, a4, _⟩ := submitProof_fields hr
-      exact hi.congr a4 a2 a3
+      exact hi.congr a4 a2
     | err c => exact hi
     | panic k => exact hi
   | regdep a d =>
     simp only [step, registerDeputy]
-    exact hi.congr rfl rfl rfl
+    exact hi.congr rfl rfl
   | unregdep a =>
     simp only [step]
     unfold unregisterDeputy
     split
     · exact hi
     · simp only [applyMsg]
-      exact hi.congr rfl rfl rfl
+      exact hi.congr rfl rfl
   | setParams p =>
     simp only [step]
     unfold updateParams
     split
     · rename_i hv
       simp only [applyMsg]
-      exact ⟨hv, hi.shards, hi.challenged⟩
+      exact ⟨hv, hi.shards⟩
     · exact hi
   | block env dt =>
     simp only [step]
@@ -427,10 +340,28 @@ theorem nohalt_reachable {s : St} (h : Reachable s) : NoHalt s := by
   | step op _ _ ih => exact nohalt_step op ih
 
 /-! ### main theorems -/
-/-- a single tally never panics in a reachable state -/
+/-- a single tally never panics in a state satisfying `NoHalt` -/
 theorem tallyOne_no_panic {s : St} (h : NoHalt s) (env : Env) (u : String) : ∃ s', tallyOne env s u = .ok s' := by
   obtain ⟨s', hs, _⟩ := tallyOne_ok (env := env) h u
   exact ⟨s', hs⟩
+
+/-- the tally of an item WITHOUT a recorded challenger (the state after a genesis import) returns: it needs nothing but
+    the item's shard count; in particular the publish collateral may be non-empty -/
+theorem tallyOne_no_challenger_ok {env : Env} {s : St} {u : String} {it : Item} (hf : findItem s u = some it)
+    (hsh : 0 < it.shards) (hnil : invsOf s u = []) : ∃ s', tallyOne env s u = .ok s' := by
+  unfold tallyOne
+  rw [hf]
+  simp only []
+  split
+  · exact ⟨_, rfl⟩
+  rw [if_neg (fun h => by have := h.1; omega)]
+  split
+  · exact ⟨_, rfl⟩
+  · rw [hnil]
+    simp only [List.foldl_nil]
+    split
+    · exact ⟨_, rfl⟩
+    · exact ⟨_, rfl⟩
 
 /-- **The x/da end-blocker never panics** in a reachable state, for every boundary input. -/
 theorem endBlock_never_panics {s : St} (h : Reachable s) (env : Env) : ∃ r, endBlock env s = .ok r := by
@@ -442,6 +373,34 @@ theorem block_never_halts {s : St} (h : Reachable s) (env : Env) (dt : Int) : (s
   obtain ⟨⟨s', sl⟩, hr, _⟩ := block_ok (env := env) (nohalt_reachable h) dt
   simp only [step, hr]
 
+/-! ### histories that start from an imported genesis
+`Reachable` starts from `Init` (empty stores). A genesis import starts from ANY stored items — `challenging` ones
+included — and no invalidity record. `NoHalt` (valid params, every item has a shard: both checked by the import) is all
+that is needed, so the two theorems above hold for every history from such a state as well. -/
+/-- the state after running the operations `ops` from `s` (halted blocks keep the state, as in `step`) -/
+def run (s : St) : List Op → St
+  | [] => s
+  | op :: ops => run (step s op).1 ops
+
+theorem nohalt_run {s : St} (h : NoHalt s) : ∀ ops : List Op, NoHalt (run s ops) := by
+  intro ops
+  induction ops generalizing s with
+  | nil => exact h
+  | cons op ops ih => exact ih (nohalt_step op h)
+
+/-- from ANY state satisfying `NoHalt` — in particular an imported genesis with challenged items and no recorded
+    challenger — the end-blocker never panics after any history -/
+theorem endBlock_never_panics_from {s0 : St} (h : NoHalt s0) (ops : List Op) (env : Env) :
+    ∃ r, endBlock env (run s0 ops) = .ok r := by
+  obtain ⟨r, hr, _⟩ := endBlock_ok (env := env) (nohalt_run h ops)
+  exact ⟨r, hr⟩
+
+/-- … and no block of any history from such a state halts -/
+theorem run_never_halts_from {s0 : St} (h : NoHalt s0) (ops : List Op) (env : Env) (dt : Int) :
+    (step (run s0 ops) (.block env dt)).2.1 = "ok" := by
+  obtain ⟨⟨s', sl⟩, hr, _⟩ := block_ok (env := env) (nohalt_run h ops) dt
+  simp only [step, hr]
+
 /-! ### non-vacuity -/
 def exParams : Params := ⟨0, 1, 1, 0, 0, 1, 1, 1, 1, [("stake", 3)], [("stake", 1)]⟩
 def exItem (st : Status) : Item := ⟨"u", st, 0, "alice", 2, 1, [("stake", 3)], [("stake", 1)]⟩
@@ -451,25 +410,52 @@ def exEnv : Env := ⟨[], fun _ => none, fun _ _ => [], []⟩
 
 /-- the invariant is satisfiable by a state with an item in `challenging` (one recorded invalidity) -/
 example : NoHalt (exSt .ch [⟨"u", "bob", [0]⟩]) := by
-  refine ⟨by decide, ?_, ?_⟩
-  · intro it hit
-    simp only [exSt, List.mem_singleton] at hit
-    subst hit; decide
-  · intro it hit _
-    simp only [exSt, List.mem_singleton] at hit
-    subst hit
-    simp [invsOf, exSt, exItem]
+  refine ⟨by decide, ?_⟩
+  intro it hit
+  simp only [exSt, List.mem_singleton] at hit
+  subst hit; decide
 
 /-- the to-challenging phase really produces such items: a challenged item in its challenge period moves to `challenging` -/
 example : (toChallengingOne (exSt .cp [⟨"u", "bob", [0]⟩]) "u").items = [exItem .ch] := by
   have hP : (0 : Int) ≤ PREC := by decide
   simp [toChallengingOne, findItem, exSt, exItem, invsOf, distinctIndices, addDistinct, setItem, exParams, hP]
 
-/-- the `challenged` field is needed: the same `challenging` item WITHOUT a recorded invalidity makes the tally panic
-    (no proofs ⇒ rejected ⇒ reward division by `len(invalidities) = 0`) -/
-example : tallyOne exEnv (exSt .ch []) "u" = .panic .divZero := by
-  simp [tallyOne, findItem, exSt, exItem, invsOf, proofsOf, buildSubmitted, tallyOutcome, safeIndices,
-    Res.bind]
+/-- an imported genesis: the item is `challenging` (time stamp 0), NO invalidity is recorded, the publish collateral is
+    `3stake`, and the block time (5 s) is past the proof deadline (`proof_period` = 1 ns) -/
+def exImported : St := { exSt .ch [] with now := 5 * SEC }
+
+/-- it satisfies the invariant -/
+example : NoHalt exImported := by
+  refine ⟨by decide, ?_⟩
+  intro it hit
+  simp only [exImported, exSt, List.mem_singleton] at hit
+  subst hit; decide
+
+/-- the item is due: the tally of the end-blocker selects it -/
+example : indexScan exImported .ch (some (unix (exImported.now - exImported.params.pp))) = ["u"] := by
+  simp [indexScan, exImported, exSt, exItem, exParams, unix, SEC]
+
+/-- the tally of that item RETURNS (before the fix of `abci.go` this was `.panic .divZero`: no proofs ⇒ rejected ⇒
+    reward division by `len(invalidities) = 0`) … -/
+example : (tallyOne exEnv exImported "u").isOk = true := by
+  decide
+
+/-- … the item is rejected, nobody is paid and the whole publish collateral is left in the module account (`dust`) -/
+example : ∃ s', tallyOne exEnv exImported "u" = .ok s' ∧ s'.items = [{ exItem .rej with ts := 5 * SEC }]
+    ∧ s'.bank = exImported.bank ∧ s'.dust "stake" = 3 := by
+  refine ⟨_, by simp [tallyOne, findItem, exImported, exSt, exItem, invsOf, proofsOf, buildSubmitted, tallyOutcome,
+    safeIndices, Res.bind]; rfl, ?_, ?_, ?_⟩
+  · simp [setItem, exItem, exImported, exSt]
+  · rfl
+  · simp [addDust, rewardShare, amt, exItem]
+
+/-- … and so do the whole tally and the whole end-blocker -/
+example : (endBlock exEnv exImported).isOk = true := by
+  obtain ⟨r, hr, _⟩ := endBlock_ok (env := exEnv) (s := exImported) ⟨by decide, by
+    intro it hit
+    simp only [exImported, exSt, List.mem_singleton] at hit
+    subst hit; decide⟩
+  rw [hr]; rfl
 
 end Sunrise.C01DA
 
